@@ -26,6 +26,18 @@ func activePackages(s *Suite, tier, only string) []string {
 		}
 		active[pkg] = true
 	}
+	// A package that holds the target of a suite-level redirect:/before: override
+	// is needed by every harness of the suite (RunHarness resolves all suite-level
+	// overrides), so it stays loaded even when none of its own harnesses is active.
+	for _, spec := range s.Overrides {
+		for _, pre := range []string{"redirect:", "before:"} {
+			if strings.HasPrefix(spec, pre) {
+				if i := strings.LastIndex(spec, "."); i > len(pre) {
+					active[spec[len(pre):i]] = true
+				}
+			}
+		}
+	}
 	var out []string
 	for _, p := range s.Packages {
 		if has[p] && !active[p] {
